@@ -150,13 +150,30 @@ pub fn dispatch(op: &str, a: &[Val]) -> Option<Val> {
             }
             Some(vtup(out))
         })(),
+        // provided adaptors of WeekdaySetIter (size_hint, count, last, nth, nth_back, rev, collect)
+        "ws.adapt" => (|| {
+            if a.len() != 3 { return None; }
+            let s = dws(&a[0])?; let start = dwd(&a[1])?; let k = a[2].int()?;
+            if !(0..=9).contains(&k) { return None; }
+            let k = k as usize;
+            let it = s.iter(start);
+            let (lo, hi) = it.size_hint();
+            Some(vtup(vec![
+                vint(lo as u64), vopt(hi, |x| vint(x as u64)),
+                vint(it.clone().count() as u64), vopt(it.clone().last(), ewd),
+                vopt(it.clone().nth(k), ewd), vopt(it.clone().nth_back(k), ewd), vopt(it.clone().rev().nth(k), ewd),
+                vtup(it.clone().collect::<Vec<Weekday>>().into_iter().map(ewd).collect()),
+                vtup(it.clone().rev().collect::<Vec<Weekday>>().into_iter().map(ewd).collect()),
+                vint(it.clone().rev().len() as u64),
+            ]))
+        })(),
         _ => return None,
     };
     let arity = match op {
         "ws.consts" => 0,
         "wd.since" | "mo.cmp" | "ws.insert" | "ws.remove" | "ws.contains" | "ws.subset" | "ws.inter" | "ws.union"
         | "ws.symdiff" | "ws.diff" => 2,
-        "ws.iter" => 3,
+        "ws.iter" | "ws.adapt" => 3,
         _ => 1,
     };
     if a.len() != arity { return Some(bad()); }
